@@ -38,6 +38,7 @@ static RUN_COUNTER: AtomicU64 = AtomicU64::new(0);
 /// crash injection: unwind before the CRASH_AT-th storage write (0 = disarmed)
 static CRASH_AT: AtomicU64 = AtomicU64::new(0);
 static WRITES: AtomicU64 = AtomicU64::new(0);
+static CRASH_SITE: std::sync::Mutex<Option<(String, u64)>> = std::sync::Mutex::new(None);
 static HOOK_INSTALLED: AtomicBool = AtomicBool::new(false);
 thread_local! {
     static WRITE_SITES: std::cell::RefCell<Vec<&'static str>> = std::cell::RefCell::new(Vec::new());
@@ -192,6 +193,7 @@ pub fn writes_now() -> u64 {
 
 pub fn disarm_crash() {
     CRASH_AT.store(0, Ordering::SeqCst);
+    *CRASH_SITE.lock().unwrap_or_else(|e| e.into_inner()) = None;
 }
 
 fn install_write_hook() {
@@ -207,6 +209,25 @@ fn install_write_hook() {
             let _ = WRITE_SITES.try_with(|w| w.borrow_mut().push(site));
             let at = CRASH_AT.load(Ordering::SeqCst);
             if at != 0 && n == at {
+                panic!("VERIF-CRASH {}", site);
+            }
+            // crash before the nth write of a named site
+            let hit = {
+                let mut g = CRASH_SITE.lock().unwrap_or_else(|e| e.into_inner());
+                match g.as_mut() {
+                    Some((name, left)) if name == site => {
+                        if *left <= 1 {
+                            *g = None;
+                            true
+                        } else {
+                            *left -= 1;
+                            false
+                        }
+                    }
+                    _ => false,
+                }
+            };
+            if hit {
                 panic!("VERIF-CRASH {}", site);
             }
             let pause = PAUSE_AT.load(Ordering::SeqCst);
@@ -490,6 +511,14 @@ pub fn execute_one(plan: &Plan, verbose: bool) -> Outcome {
             .find_map(|f| f.strip_prefix("crash_at=").and_then(|v| v.parse::<u64>().ok()))
             .unwrap_or(0);
         CRASH_AT.store(crash_at, Ordering::SeqCst);
+        *CRASH_SITE.lock().unwrap_or_else(|e| e.into_inner()) = plan
+            .flags
+            .iter()
+            .find_map(|f| f.strip_prefix("crash_site="))
+            .and_then(|v| {
+                let mut it = v.split(':');
+                Some((it.next()?.to_string(), it.next().and_then(|n| n.parse().ok()).unwrap_or(1)))
+            });
         let mut sim = Sim::new(plan.clone(), dir.clone(), verbose);
         sim.run();
         CRASH_AT.store(0, Ordering::SeqCst);
